@@ -18,6 +18,7 @@ var commands = map[string]func([]string){
 	"lits-tag":    cmdLitsTag,
 	"conc-sched":  cmdConcSched,
 	"conc-orders": cmdConcOrders,
+	"conc-solo":   cmdConcSolo,
 	"conc-free":   cmdConcFree,
 	"ownpost":     cmdOwnPost,
 	"system":      cmdSystem,
